@@ -183,7 +183,12 @@ def _c3(cls, loader):
     def mro_of(c):
         if isinstance(c, ClassInfo):
             return list(c.mro(loader))
-        return [c]
+        out = [c]
+        if getattr(c, "py", None) is not None:
+            out += [loader.ext_class(k.__name__, k) for k in c.py.__mro__[1:]]
+        for b in getattr(c, "bases", ()) or ():          # sidecar-declared external hierarchy
+            out += [k for k in mro_of(b) if k not in out]
+        return out
     bases = cls.bases(loader)
     seqs = [mro_of(b) for b in bases] + [list(bases)]
     res = [cls]
@@ -394,6 +399,11 @@ class Loader:
             return BUILTINS["copy"]
         if mod in ("collections.abc", "typing", "typing_extensions") and attr in ("Iterable", "Iterator", "Hashable", "Sized", "Container"):
             v = self.ext_class(f"collections.abc.{attr}", None)
+            self.externals[key] = v
+            return v
+        if mod == "math" and attr in ("inf", "nan", "pi", "e", "tau"):
+            import math as _math
+            v = getattr(_math, attr)
             self.externals[key] = v
             return v
         if (mod, attr) == ("types", "NoneType"):
